@@ -18,6 +18,7 @@ import (
 	"net/http"
 	"strings"
 	"sync"
+	"sync/atomic"
 	"testing"
 	"time"
 
@@ -37,6 +38,9 @@ type c11Op struct {
 
 type c11Spec struct {
 	BadStore  bool    `json:"bad_store,omitempty"` // an EventStore whose SessionClosed reports an error
+	// AppendFailAt > 0 (with BadStore): the k-th Append of the store fails once (a remote store with a hiccup); the
+	// message is still delivered and nothing about the session table changes
+	AppendFailAt int `json:"append_fail_at,omitempty"`
 	Stateless bool    `json:"stateless"`
 	TimeoutMs int     `json:"timeout_ms"`
 	Ops       []c11Op `json:"ops"`
@@ -48,11 +52,15 @@ func genC11(r *vh.Rand) c11Spec {
 		s.Stateless = true
 	}
 	s.BadStore = r.Chance(1, 4)
-	users := []string{"", "alice", "bob"}
+	if s.BadStore && r.Bool() {
+		s.AppendFailAt = r.Range(1, 8)
+	}
+	// "svc": a credential the verifier accepts without naming a user (a service token): it is nobody's owner
+	users := []string{"", "alice", "bob", "svc"}
 	nsess := 0
 	T := s.TimeoutMs
 	for i, n := 0, r.Range(4, 14); i < n; i++ {
-		op := c11Op{User: users[r.Intn(3)], Sess: -1}
+		op := c11Op{User: users[r.Intn(4)], Sess: -1}
 		if nsess > 0 && !r.Chance(1, 8) {
 			op.Sess = r.Intn(nsess)
 		}
@@ -86,6 +94,10 @@ func genC11(r *vh.Rand) c11Spec {
 			op.Kind, op.Ms = "advance", []int{1, T / 2, T - 1, T + 1, T - 1, T + 1, 3 * T}[r.Intn(7)]
 		}
 		s.Ops = append(s.Ops, op)
+		if op.Kind == "post-slow" && op.Bg && op.Sess >= 0 && r.Chance(1, 3) {
+			// the application closes the session while that call is running
+			s.Ops = append(s.Ops, c11Op{Kind: "server-close", Sess: op.Sess, User: op.User})
+		}
 	}
 	return s
 }
@@ -171,12 +183,12 @@ func runC11(c *vh.Case, spec c11Spec) {
 	})
 	ho := &mcp.StreamableHTTPOptions{Stateless: spec.Stateless, SessionTimeout: T}
 	if spec.BadStore {
-		ho.EventStore = failingCloseStore{mcp.NewMemoryEventStore(nil)}
+		ho.EventStore = failingCloseStore{mcp.NewMemoryEventStore(nil), c11NewAppendFault(spec.AppendFailAt)}
 	}
 	sh := mcp.NewStreamableHTTPHandler(func(*http.Request) *mcp.Server { return server }, ho)
 	verifier := func(_ context.Context, token string, r *http.Request) (*auth.TokenInfo, error) {
 		// every verification yields its own token info, tagged with the request it was made for
-		return &auth.TokenInfo{UserID: token, Expiration: time.Now().Add(24 * 365 * time.Hour), Extra: map[string]any{"nonce": r.Header.Get("X-Verif-Nonce")}}, nil
+		return &auth.TokenInfo{UserID: c11UID(token), Expiration: time.Now().Add(24 * 365 * time.Hour), Extra: map[string]any{"nonce": r.Header.Get("X-Verif-Nonce")}}, nil
 	}
 	authed := auth.RequireBearerToken(verifier, nil)(sh)
 	root := http.HandlerFunc(func(w http.ResponseWriter, r *http.Request) {
@@ -290,7 +302,7 @@ func runC11(c *vh.Case, spec c11Spec) {
 			switch {
 			case m == nil || !m.alive:
 				return "dead"
-			case m.owner != "" && op.User != m.owner:
+			case m.owner != "" && c11UID(op.User) != m.owner:
 				return "foreign"
 			}
 			return "ok"
@@ -306,7 +318,7 @@ func runC11(c *vh.Case, spec c11Spec) {
 			}
 			before := len(serverSessions())
 			st, rh, _, _ := ip.Do(ctx, "POST", "http://example.test/mcp", hdrFor(op.User, ""), []byte(body))
-			nm := &c11Model{id: rh.Get("Mcp-Session-Id"), owner: op.User, lastEnd: now(), born: true}
+			nm := &c11Model{id: rh.Get("Mcp-Session-Id"), owner: c11UID(op.User), lastEnd: now(), born: true}
 			if op.Kind == "init" {
 				if !expectStatus(i, op, st, 200) {
 					break
@@ -479,6 +491,36 @@ func runC11(c *vh.Case, spec c11Spec) {
 			}
 			mmu.Unlock()
 		case "server-close":
+			if m != nil && m.alive && m.inflight > 0 {
+				// The application closes a session whose tool call is still running (Close waits for it), and the
+				// client deletes the session meanwhile: once the DELETE has been answered the id is dead, whatever
+				// the state of the close that was under way.
+				mmu.Lock()
+				m.alive = false
+				mmu.Unlock()
+				closed := make(chan struct{})
+				var cwg sync.WaitGroup
+				for _, ss := range serverSessions() {
+					if ss.ID() == m.id {
+						cwg.Add(1)
+						go func() { defer cwg.Done(); defer c.Guard(""); ss.Close() }()
+					}
+				}
+				go func() { cwg.Wait(); close(closed) }()
+				synctestWait()
+				owner := m.owner
+				st, _, _, _ := ip.Do(ctx, "DELETE", "http://example.test/mcp", hdrFor(owner, sid), nil)
+				if expectStatus(i, op, st, 204, 404) {
+					st2, _, _, _ := ip.Do(ctx, "POST", "http://example.test/mcp", hdrFor(owner, sid), []byte(`{"jsonrpc":"2.0","id":7,"method":"tools/list"}`))
+					if st2 != 404 {
+						bad("deleted-session-still-honoured", "op %d at %v: the DELETE of session %d (closed by the server while a call was running) was answered %d, yet a POST with its id right afterwards is answered %d, not 404", i, now(), op.Sess, st, st2)
+					}
+					terminatedThenUsed++
+				}
+				<-closed
+				c.Count("closed_by_server_while_busy_then_deleted", 1)
+				break
+			}
 			if m == nil || !m.alive || m.inflight > 0 {
 				break
 			}
@@ -590,7 +632,27 @@ func runC11(c *vh.Case, spec c11Spec) {
 
 // failingCloseStore is an EventStore whose cleanup hook reports an error
 // (e.g. a remote store that is unreachable when the session ends).
-type failingCloseStore struct{ *mcp.MemoryEventStore }
+type failingCloseStore struct {
+	*mcp.MemoryEventStore
+	fault *c11AppendFault
+}
+
+type c11AppendFault struct{ at, n atomic.Int64 }
+
+func (f failingCloseStore) Append(ctx context.Context, sid, stream string, data []byte) error {
+	if f.fault != nil && f.fault.at.Load() > 0 && f.fault.n.Add(1) == f.fault.at.Load() {
+		return errors.New("verif: event store append failed")
+	}
+	return f.MemoryEventStore.Append(ctx, sid, stream, data)
+}
+
+// c11UID is the user a bearer token of the harness stands for: "svc" is accepted by the verifier without naming one.
+func c11UID(token string) string {
+	if token == "svc" {
+		return ""
+	}
+	return token
+}
 
 func (f failingCloseStore) SessionClosed(ctx context.Context, sid string) error {
 	f.MemoryEventStore.SessionClosed(ctx, sid)
@@ -614,3 +676,9 @@ func anyNear(ms []*c11Model, near func(*c11Model) bool) bool {
 }
 
 var _ = testing.Short
+
+func c11NewAppendFault(at int) *c11AppendFault {
+	f := &c11AppendFault{}
+	f.at.Store(int64(at))
+	return f
+}
